@@ -37,12 +37,17 @@ func checkC15(p *ana.Prog, r *ana.Result) {
 	}
 	// fingerprint comparison
 	var match *ssa.If
+	matchSucc := 0 // the successor taken when the fingerprints are equal
 	var jIdx ssa.Value
 	var elem ssa.Value
 	ana.IfEdges(fn, func(iff *ssa.If, b *ssa.BasicBlock) {
 		c, pos, isCmp := ana.AsCmp(iff.Cond)
-		if !isCmp || c.Op != token.EQL || !pos {
+		if !isCmp || (c.Op != token.EQL && c.Op != token.NEQ) {
 			return
+		}
+		eqSucc := 0
+		if (c.Op == token.EQL) != pos {
+			eqSucc = 1
 		}
 		for _, pr := range [][2]ssa.Value{{c.X, c.Y}, {c.Y, c.X}} {
 			ip, _ := ana.CallOf(pr[1])
@@ -50,6 +55,7 @@ func checkC15(p *ana.Prog, r *ana.Result) {
 				continue
 			}
 			match = iff
+			matchSucc = eqSucc
 			// other side must be Fingerprint(ps[j]).String()
 			s, _ := ana.CallOf(pr[0])
 			if s == nil || !strings.HasSuffix(ana.CalleeName(s.Common()), "PathFingerprint).String") {
@@ -82,7 +88,7 @@ func checkC15(p *ana.Prog, r *ana.Result) {
 	}
 	r.Ok("C15.sticky", fname, "fingerprint-of-current-candidate", p.Pos(match.Cond.Pos()), "the remembered fingerprint is compared with snet.Fingerprint(ps[j]).String() computed from the current ps[j]")
 	// in the match block: ps[j] = ps[len(ps)-1]; ps = ps[:len(ps)-1]; sps[i] = p
-	mb := match.Block().Succs[0]
+	mb := match.Block().Succs[matchSucc]
 	swap, shrink, assign := false, false, false
 	var spsSlice ssa.Value
 	for _, in := range mb.Instrs {
